@@ -318,7 +318,18 @@ def main(tier):
         elif "panic:" in err or "goroutine " in err or "panic:" in out or "fatal error:" in err:
             bad = "crash output on stderr: " + (err[-300:])
         elif dt > 20 + size / 2000.0:
-            bad = "took %.1fs for %d bytes" % (dt, size)
+            # wall time on a loaded machine says little: the run is repeated, with a reference run of the same command on the
+            # baseline project next to it; it is slow only if the repetition passes the bound as well AND is far slower than the reference
+            again = replay.get("rerun")
+            slow = True
+            if again:
+                ref = run_cli(again[0], base_dir)
+                rep2 = run_cli(again[0], again[1])
+                slow = rep2[3] > 20 + size / 2000.0 and rep2[3] > 20 * ref[3] + 5
+                stats["slow_reruns"] = stats.get("slow_reruns", 0) + 1
+                dt = rep2[3]
+            if slow:
+                bad = "took %.1fs for %d bytes" % (dt, size)
         if bad:
             ck.violation("input '%s': %s" % (label, bad), dict(replay, stderr=err[-1500:], exit=rc, seconds=dt), independent=True)
         return bad is None
@@ -348,8 +359,11 @@ def main(tier):
         stats["mixed_runs"] += 1
         stats["alone_runs"] += 1
         rep = {"kind": "malformed", "label": label, "content_hex": content[:600].hex(), "content_len": len(content)}
-        ok = check_run(label + " (mixed)", r1[0], r1[1], r1[2], r1[3], len(content) + 4000, rep)
-        check_run(label + " (alone)", r2[0], r2[1], r2[2], r2[3], len(content), rep)
+        ok = check_run(label + " (mixed)", r1[0], r1[1], r1[2], r1[3], len(content) + 4000,
+                       dict(rep, rerun=(["analyze", "--json", "--no-open", "--min-complexity", "1", "--min-severity", "info", "."],
+                                        os.path.join(root, "mix_%03d" % idx))))
+        check_run(label + " (alone)", r2[0], r2[1], r2[2], r2[3], len(content),
+                  dict(rep, rerun=(["analyze", "--json", "--no-open", "."], os.path.join(root, "alone_%03d" % idx))))
         if ok:
             got = sections_for(data, keep)
             for sec in base:
